@@ -61,6 +61,7 @@ class Unit:
         self.crate = j["crate"]
         self.kind = "bin" if any("Executable" in t for t in j["crate_types"]) else "lib"
         self.name = "%s-%s" % (self.crate, self.kind)
+        self.fn_renames = _pin_function_names(j, self.name)
         self.types = j["types"]
         self.adts = {a["path"]: a for a in j["adts"]}
         self.impls = j["impls"]
@@ -110,6 +111,60 @@ def pinned_names():
         except (OSError, ValueError):
             _PINNED = {}
     return _PINNED
+
+
+def _pin_function_names(j, unit_name):
+    """A function of the pinned vocabulary that is missing from this unit, and exactly one NEW function in the same
+    impl/module with the same parameter and return types: the function was renamed. Its key and name (and those of
+    its closures, and every call descriptor naming it) are spelled the pinned way. Returns {new key: pinned key}."""
+    pinned = pinned_names()
+    if not pinned:
+        return {}
+    types = j["types"]
+
+    def sig(b):
+        ls = b["locals"]
+        return (b["argc"], tuple(types[ls[i]["ty"]]["s"] for i in range(1, b["argc"] + 1)), types[ls[0]["ty"]]["s"])
+    cur = {b["key"]: b for b in j["bodies"] if not b.get("closure") and not b.get("const_item")}
+    missing = [k for k, e in pinned.items() if e.get("unit") == unit_name and not e.get("closure") and k not in cur
+               and "::tests::" not in k]
+    new = [k for k in cur if k not in pinned and "::tests::" not in k and "::test::" not in k]
+    ren = {}
+    for k in missing:
+        e = pinned[k]
+        prefix = k.rsplit("::", 1)[0]
+        psig = (e["argc"], tuple(t for (i, t, n) in (tuple(x) for x in e["locals"]) if 1 <= i <= e["argc"]), e.get("ret"))
+        # parameters may be unnamed in the pinned list (patterns): compare what is there
+        cands = []
+        for nk in new:
+            if nk.rsplit("::", 1)[0] != prefix or nk in ren:
+                continue
+            s_ = sig(cur[nk])
+            if s_[0] == psig[0] and s_[2] == psig[2] and (len(psig[1]) != s_[0] or s_[1] == psig[1]):
+                cands.append(nk)
+        if len(cands) == 1:
+            ren[cands[0]] = k
+    if not ren:
+        return {}
+
+    def fix(o):
+        if isinstance(o, dict):
+            for fld in ("key", "resolved", "parent"):
+                v = o.get(fld)
+                if isinstance(v, str):
+                    for nk, ok in ren.items():
+                        if v == nk or v.startswith(nk + "::"):
+                            o[fld] = ok + v[len(nk):]
+                            if fld == "key" and v == nk and isinstance(o.get("name"), str):
+                                o["name"] = ok.rsplit("::", 1)[1]
+            for v in o.values():
+                fix(v)
+        elif isinstance(o, list):
+            for v in o:
+                fix(v)
+    fix(j["bodies"])
+    fix(j.get("hir", []))
+    return ren
 
 
 def pin_names(body):
